@@ -1216,6 +1216,18 @@ snarf_pro(struct ical_vevent_s ve[static 1U],
 }
 
 
+static nummapstr_t
+nummapstr_dup(nummapstr_t x)
+{
+/* tasks own their strings, so hand out copies of calendar-wide defaults */
+	const char *s;
+
+	if ((s = nummapstr_str(x)) != NULL) {
+		return nummapstr_bang_str(strdup(s));
+	}
+	return x;
+}
+
 /* ical parsers, push and pull */
 struct ical_parser_s {
 	enum {
@@ -1423,8 +1435,15 @@ _ical_proc(struct ical_parser_s p[static 1U])
 					/* FINALLY a vevent thing */
 					/* rinse our bucket */
 					memset(&p->ve, 0, sizeof(p->ve));
-					/* copy global task properties */
+					/* copy global task properties,
+					 * strings are owned by the task though */
 					p->ve.t = p->globve.t;
+					p->ve.t.owner =
+						nummapstr_dup(p->globve.t.owner);
+					p->ve.t.run_as.u =
+						nummapstr_dup(p->globve.t.run_as.u);
+					p->ve.t.run_as.g =
+						nummapstr_dup(p->globve.t.run_as.g);
 					/* copy global scale */
 					p->ve.cal = p->globve.cal;
 					/* and set state to vevent */
@@ -1488,22 +1507,8 @@ _ical_proc(struct ical_parser_s p[static 1U])
 			}
 			/* return to VCAL state so we can be looking forward
 			 * to other vevents as well */
-			if (!p->ve.t.owner) {
-				/* bang owner */
-				p->ve.t.owner = p->globve.t.owner;
-			}
-			if (!p->ve.t.umsk) {
-				/* bang umask */
-				p->ve.t.umsk = p->globve.t.umsk;
-			}
-			if (!p->ve.t.max_simul) {
-				/* bang umask */
-				p->ve.t.max_simul = p->globve.t.max_simul;
-			}
-			if (!p->ve.t.run_as.u) {
-				/* bang run_as */
-				p->ve.t.run_as = p->globve.t.run_as;
-			}
+			/* calendar-wide defaults have been copied when the
+			 * component began, what the event says itself wins */
 			/* copy global scale */
 			p->ve.cal = p->globve.cal;
 			/* reset to unknown state */
